@@ -24,7 +24,6 @@ def build():
                   E('accumulate', 'old(self)@.dom().contains(entity.0) ==> final(self)@ == old(self)@.insert(entity.0, old(self)@[entity.0].add_spec(value))'),
                   E('first', '!old(self)@.dom().contains(entity.0) ==> final(self)@ == old(self)@.insert(entity.0, value)')])
     u.fn(CS, [CI, 'fn clear'], props='C16', key='ChangeSet::clear',
-         rules=[('N10', r'core::mem::take\(&mut self\.mask\)', 'take_bitset(&mut self.mask)')],
          requires=[E('wf', 'old(self).wf()')],
          ensures=[E('wf', 'final(self).wf()'), E('empty', 'final(self)@ == Map::<Index, T>::empty()')])
     # ---- join members of the change set
